@@ -97,8 +97,12 @@ theorem parseAT_sentence (d : AttributeType) (s : Str) (h : ATSent d s) : parseA
     simp only [List.append_assoc]]
   unfold parseAT
   rw [head_step hoid w0 F0]
-  unfold synPost at vsy
   simp only [en, ed, eo, es, eeq, eor, esu, esy, esv, eco, enu, eus, et, vt, vn, vd, vus]
+  show Except.ok ({
+    oid := d.oid, names := d.names, desc := d.desc, obsolete := d.obsolete, sup := d.sup,
+    equality := d.equality, ordering := d.ordering, substr := d.substr, syn := (synPost gsy).fst,
+    synLen := (synPost gsy).snd, singleValue := d.singleValue, collective := d.collective,
+    noUserMod := d.noUserMod, usage := d.usage, exts := d.exts } : AttributeType) = Except.ok d
   rw [vsy]
 
 theorem sample_oc_sentence : OCSent { oid := ofString "1.2", kind := 1 } (ofString "( 1.2 )") := by
